@@ -521,6 +521,10 @@ func getValueAtPath(path string, vcAsInterface interface{}) (interface{}, error)
 func matchFilter(filter Filter, value interface{}) (bool, interface{}, error) {
 	// first we check if it's an enum, so we can recursively call matchFilter for each value
 	if filter.Enum != nil {
+		// enum values are strings: a filter that requires another type can't be satisfied by any of them
+		if filter.Type != "" && filter.Type != "string" {
+			return false, nil, nil
+		}
 		for _, enum := range filter.Enum {
 			f := Filter{
 				Type:  "string",
@@ -560,6 +564,10 @@ func matchFilter(filter Filter, value interface{}) (bool, interface{}, error) {
 			if match {
 				return true, value, nil
 			}
+		}
+		// none of the elements matches: only a filter that asks for an array can still match the value itself
+		if filter.Type != "array" {
+			return false, nil, nil
 		}
 	default:
 		// object not supported for now
